@@ -63,3 +63,51 @@ def section(rep: Report, name, fn):
         rep.add(Ob(id=name + ".engine", status="unknown", backend="engine", detail="unsupported: %s" % e, kind="vc"))
     except Exception:
         rep.add(Ob(id=name + ".engine", status="error", backend="engine", detail=traceback.format_exc()[-1500:], kind="vc"))
+
+
+_ITEMS = []
+
+
+def _run_section(idx):
+    name, fn = _ITEMS[idx]
+    from engine import contexts
+    rep = Report("tmp")
+    section(rep, name, lambda: fn(rep))
+    for ob in rep.obligations:
+        ob.smt2 = ob.smt2[:800]
+        try:
+            import json
+            json.dumps(ob.witness)
+        except Exception:
+            ob.witness = str(ob.witness)[:2000]
+    return rep.obligations, rep.functions, rep.vacuity, rep.unproved_conjuncts, rep.bounded
+
+
+def sections_parallel(rep: Report, items, jobs=8):
+    """run independent sections [(name, fn(rep))] in forked workers and merge their reports"""
+    import multiprocessing as mp
+    import os
+
+    if os.environ.get("VERIF_SERIAL") or len(items) == 1:
+        for name, fn in items:
+            section(rep, name, lambda fn=fn: fn(rep))
+        return
+    global _ITEMS
+    _ITEMS = list(items)
+    ctx = mp.get_context("fork")
+    with ctx.Pool(min(jobs, len(items))) as p:
+        results = p.map(_run_section, list(range(len(items))), chunksize=1)
+    for obs, funcs, vac, unp, bnd in results:
+        rep.obligations.extend(obs)
+        for f in funcs:
+            if not any(g.get("name") == f.get("name") for g in rep.functions):
+                rep.functions.append(f)
+        for k, v in vac.items():
+            if isinstance(v, dict):
+                rep.vacuity.setdefault(k, {}).update(v)
+            elif isinstance(v, int):
+                rep.vacuity[k] = rep.vacuity.get(k, 0) + v
+            else:
+                rep.vacuity[k] = v
+        rep.unproved_conjuncts.extend(unp)
+        rep.bounded.extend(bnd)
